@@ -66,6 +66,20 @@ pub fn profile(name: &str) -> Option<Profile> {
             },
             ..base
         },
+        // Removal-heavy histories judged by the follow-up oracle of C09.
+        "c09hist" => Profile {
+            name: "c09hist",
+            oracles: Oracles { c09: true, ..Default::default() },
+            gen_cfg: GenCfg {
+                w_entitlement: 24,
+                w_config: 24,
+                w_removal: 28,
+                w_keyroll: 14,
+                w_class_map: 8,
+                ..GenCfg::default()
+            },
+            ..base
+        },
         "c04" => Profile {
             name: "c04",
             oracles: Oracles { c04: true, ..Default::default() },
